@@ -59,13 +59,36 @@ func runC07(r *Report) {
 	p := r.P
 	// R07a
 	nHit := 0
+	var r07aScope []*ssa.Function
 	for _, name := range []string{"rueidis.(*lru).Flight", "rueidis.(*lru).Flights", "rueidis.(*adapter).Flight"} {
-		fn := r.FnAnchor("R07a", name)
-		if fn == nil {
-			continue
+		if fn := r.FnAnchor("R07a", name); fn != nil {
+			// a lookup may be split into a fast path and a locked slow path: the parts are judged
+			// separately, each against its own request-time parameter (which its caller passes on)
+			for _, f := range WithHelpers(p, fn) {
+				if f.Parent() == nil {
+					r07aScope = append(r07aScope, f)
+				}
+			}
 		}
+	}
+	for _, fn := range r07aScope {
+		name := FuncName(fn)
 		now := nowParam(fn)
 		r.Anchor("R07a", name+": now parameter", now != nil)
+		// a split-off part receives the caller's request time
+		if !strings.HasSuffix(name, ").Flight") && !strings.HasSuffix(name, ").Flights") {
+			passed := true
+			for _, cs := range p.Callers(name) {
+				okp := false
+				for _, a := range CallArgs(cs.Call()) {
+					if a == nowParam(cs.Fn) && a != nil {
+						okp = true
+					}
+				}
+				passed = passed && okp
+			}
+			r.Ob("R07a", fn, "request-time-passed-on", fn.Pos(), passed, "the split-off part of a lookup is handed the caller's request time")
+		}
 		// every use of relativePTTL is `> 0` against the request time
 		for _, s := range CallSites(fn, "rueidis.(*RedisMessage).relativePTTL") {
 			call := s.Instr.(*ssa.Call)
@@ -176,52 +199,54 @@ func runC07(r *Report) {
 		return add.Call.Args[0] == nowParam(fn) && ttlOK(add.Call.Args[1])
 	}
 	for _, name := range []string{"rueidis.(*lru).Flight", "rueidis.(*lru).Flights"} {
-		fn := p.Fn(name)
-		if fn == nil {
+		fn0 := p.Fn(name)
+		if fn0 == nil {
 			continue
 		}
 		n := 0
-		for _, s := range CallSites(fn, "rueidis.(*RedisMessage).setExpireAt") {
-			n++
-			arg := s.Call().Common().Args[1]
-			var ok bool
-			if name == "rueidis.(*lru).Flight" {
-				ok = isClientExpiry(arg, fn, func(t ssa.Value) bool { _, isp := t.(*ssa.Parameter); return isp })
-			} else {
-				// TTL of multi[idx] where idx is the index whose cache key was computed in this iteration
-				var ttlIdx ssa.Value
-				ok = isClientExpiry(arg, fn, func(t ssa.Value) bool {
-					u, isu := t.(*ssa.UnOp)
-					if !isu {
-						return false
-					}
-					fa, isf := u.X.(*ssa.FieldAddr)
-					if !isf {
-						return false
-					}
-					_, f, base, _ := FieldRef(fa)
-					ia, isia := base.(*ssa.IndexAddr)
-					if f != "TTL" || !isia {
-						return false
-					}
-					ttlIdx = ia.Index
-					return true
-				})
-				if ok {
-					same := false
-					for _, cs := range CallSites(fn, "rueidis/internal/cmds.CacheKey") {
-						if cs.Block.Dominates(s.Block) || cs.Block == s.Block {
-							if ki := indexOfDeep(cs.Call().Common().Args[0]); ki != nil && s.Block.Parent() == cs.Fn && reachesBlock(cs.Block, s.Block) {
-								if Same(ki, ttlIdx) && sameLoop(fn, cs.Block, s.Block) {
-									same = true
+		for _, fn := range WithHelpers(p, fn0) {
+			for _, s := range CallSites(fn, "rueidis.(*RedisMessage).setExpireAt") {
+				n++
+				arg := s.Call().Common().Args[1]
+				var ok bool
+				if name == "rueidis.(*lru).Flight" {
+					ok = isClientExpiry(arg, fn, func(t ssa.Value) bool { _, isp := t.(*ssa.Parameter); return isp })
+				} else {
+					// TTL of multi[idx] where idx is the index whose cache key was computed in this iteration
+					var ttlIdx ssa.Value
+					ok = isClientExpiry(arg, fn, func(t ssa.Value) bool {
+						u, isu := t.(*ssa.UnOp)
+						if !isu {
+							return false
+						}
+						fa, isf := u.X.(*ssa.FieldAddr)
+						if !isf {
+							return false
+						}
+						_, f, base, _ := FieldRef(fa)
+						ia, isia := base.(*ssa.IndexAddr)
+						if f != "TTL" || !isia {
+							return false
+						}
+						ttlIdx = ia.Index
+						return true
+					})
+					if ok {
+						same := false
+						for _, cs := range CallSites(fn, "rueidis/internal/cmds.CacheKey") {
+							if cs.Block.Dominates(s.Block) || cs.Block == s.Block {
+								if ki := indexOfDeep(cs.Call().Common().Args[0]); ki != nil && s.Block.Parent() == cs.Fn && reachesBlock(cs.Block, s.Block) {
+									if Same(ki, ttlIdx) && sameLoop(fn, cs.Block, s.Block) {
+										same = true
+									}
 								}
 							}
 						}
+						ok = same
 					}
-					ok = same
 				}
+				r.ObSite("R07b", s, "client-expiry-from-request-time-and-own-ttl", ok, "the pending entry's expiry is now.Add(ttl).UnixMilli() with the request time and the TTL of the command the entry is created for")
 			}
-			r.ObSite("R07b", s, "client-expiry-from-request-time-and-own-ttl", ok, "the pending entry's expiry is now.Add(ttl).UnixMilli() with the request time and the TTL of the command the entry is created for")
 		}
 		r.Anchor("R07b", name+": expiry of new flights", n >= 1)
 	}
